@@ -304,3 +304,48 @@ def c_estimate_dtypes(k):
                 r = np.asarray(px.estimate_prox_parameter(alpha, W, csc_array(M)))
                 ok = r.shape == (cols,) and np.issubdtype(r.dtype, np.floating) and bool(np.all(np.isfinite(r)) and np.all(r > 0)) and bool(np.allclose(r, ref, rtol=1e-5 if "32" in tag else 1e-10))
                 k.prove(f"trial {trial} (n = {n}, {cols} columns, {'diagonal' if trial % 2 == 0 else 'full'} M), W as {tag}: r = alpha / diag(W^T M^-1 W), positive, finite, floating", ok)
+
+
+@contract("C27", "prox maps/integer-typed and float32 vectors of any magnitude denote the same real values", samples=0, replayable=False, timeout=30)
+def c_prox_machine_types(k):
+    """the projections are stated for real vectors; a vector stored as int16 / int32 / int64 / float32 is such a vector.
+    Integer arithmetic wraps silently (a @ a of an int64 vector overflows above |x| ~ 3e9, of an int16 one above 181), a
+    symbolic run cannot see that: NegativeOrthant.prox, Sphere.prox, Sphere.active_set and Sphere.residual are executed
+    natively on integer-typed and float32 vectors, small and near the limits of their type, and compared with float64."""
+    from vk import kit as K
+    from vk import npshim
+
+    if not k.sym:
+        raise K.Reject("decided by native execution")
+    import cardillo.math.prox as px
+
+    k.covers(px.NegativeOrthant.prox, px.Sphere.prox, px.Sphere.active_set, px.Sphere.residual)
+    cases = [
+        ("int64 small", np.array([3, -4], dtype=np.int64), 2.0), ("int64 near the square-overflow limit", np.array([3000000000, 4000000000], dtype=np.int64), 4.0e9), ("int64 one component", np.array([10000000000], dtype=np.int64), 9.0e9),
+        ("int32 small", np.array([3, -4, 12], dtype=np.int32), 6.5), ("int32 large", np.array([60000, 80000], dtype=np.int32), 90000.0), ("int16 large", np.array([300, 400], dtype=np.int16), 100.0),
+        ("float32", np.array([0.3, -0.4, 1.2], dtype=np.float32), 0.65), ("float64 control", np.array([3.0e9, 4.0e9]), 4.0e9),
+    ]
+    with npshim.active(False), np.errstate(all="ignore"):
+        for tag, x, z in cases:
+            xf = x.astype(float)
+            tol = 1e-6 if "32" in tag and "float" in tag else 1e-12
+            for mu in (1.0, 0.5):
+                s = px.Sphere(mu)
+                for name, call in (
+                    ("Sphere.prox", lambda v: s.prox(v, z)),
+                    ("Sphere.active_set", lambda v: s.active_set(v, np.zeros_like(v), z, 1)),
+                    ("Sphere.residual[inactive/active as computed]", lambda v: s.residual(v, np.zeros_like(v), z, 1, s.active_set(v, np.zeros_like(v), z, 1))),
+                ):
+                    try:
+                        want = np.asarray(call(xf), dtype=float)
+                        got = np.asarray(call(x), dtype=float)
+                        ok = got.shape == want.shape and bool(np.allclose(got, want, rtol=tol, atol=tol * max(1.0, float(np.max(np.abs(xf))))))
+                        how = "" if ok else f"got {got}, float64 gives {want}"
+                    except Exception as e:  # noqa: BLE001
+                        ok, how = False, f"raised {type(e).__name__}: {e}"
+                    k.prove(f"{name}(mu={mu}, z={z:g}) on {tag} {x.tolist()}: result of the float64 vector", ok, show=how)
+            try:
+                ok = bool(np.allclose(np.asarray(px.NegativeOrthant().prox(x), dtype=float), np.asarray(px.NegativeOrthant().prox(xf), dtype=float)))
+            except Exception as e:  # noqa: BLE001
+                ok = False
+            k.prove(f"NegativeOrthant.prox on {tag} {x.tolist()}: result of the float64 vector", ok)
